@@ -1,6 +1,6 @@
 (* Wire-level dispatch: function id -> decoder -> model function -> encoder.
    The harness reads the `fn_*` table below (single source of the ids).  Glue only. *)
-From SG Require Import Base.Prelude Base.Val Base.NumpyPrims Model.Pairs Model.Groups Model.Estimators Model.Sparse Model.Binning Model.Kriging Model.Jackknife Model.SpaceTime Model.SumModels Model.VarioSM.
+From SG Require Import Base.Prelude Base.Val Base.NumpyPrims Model.Pairs Model.Groups Model.Estimators Model.Sparse Model.Binning Model.Kriging Model.Jackknife Model.SpaceTime Model.SumModels Model.VarioSM Model.Fit.
 
 Definition fn_pairs : Z := 1.
 Definition fn_groups : Z := 2.
@@ -38,6 +38,10 @@ Definition fn_slice_bounds : Z := 33.
 Definition fn_split_args : Z := 34.
 Definition fn_masked_groups : Z := 35.
 Definition fn_vario_run : Z := 36.
+Definition fn_parameters : Z := 37.
+Definition fn_krige_args : Z := 38.
+Definition fn_fit_inputs : Z := 39.
+Definition fn_bounds_sum : Z := 40.
 
 (* ---- wire encoding of the C06 state machine ---- *)
 Definition getBinf (v : val) : option binf :=
@@ -218,6 +222,12 @@ Definition run_fn (f : Z) (a : list val) : option val :=
   | 35%Z => do e <- getList getQ (arg a 0); do D <- getList getQ (arg a 1); do m <- getList getB (arg a 2);
             Some (ofList (ofOpt ofN) (masked_groups e D m))
   | 36%Z => do s <- getSettings (arg a 0); do ops <- getList getOp (arg a 1); Some (VL (vario_trace (s, empty_caches) ops))
+  | 37%Z => do k <- getN (arg a 0); do u <- getB (arg a 1); do c <- getList getQ (arg a 2); Some (ofList ofQ (parameters k u c))
+  | 38%Z => do k <- getN (arg a 0); do u <- getB (arg a 1); do c <- getList getQ (arg a 2); Some (ofList ofQ (krige_args k u c))
+  | 39%Z => do b <- getList getQ (arg a 0); do e <- getList (getOpt getQ) (arg a 1); do sg <- getOpt (getList getQ) (arg a 2);
+            Some (VL [ofList ofQ (fit_x b e); ofList ofQ (fit_y e); match sg with Some sv => ofList ofQ (fit_sigma sv e) | None => VNone end])
+  | 40%Z => do ks <- getList (getOpt getQ) (arg a 0); do mx <- getQ (arg a 1); do my <- getQ (arg a 2); do u <- getB (arg a 3);
+            Some (ofList ofQ (bounds_sum ks mx my u))
   | _ => None
   end.
 
